@@ -2,27 +2,36 @@ import GuppyVerif.Model.Linearity
 /-! Specification vocabulary for C06: an ownership semantics over CFG paths, stated without
     reference to scopes, liveness or any other device of the checker.
 
-    A linear leaf is *owned* (present) or not.  A statement acts on a leaf through a sequence of
-    events: `use` (the leaf is required and taken: moved, consumed, returned, or lent to a
-    callee), `give` (the callee hands a lent leaf back), `asg` (the leaf is (re)defined by an
-    assignment).  A path is bad as soon as a leaf is used while absent (use after consume, second
-    borrow while lent) or assigned while owned (the old value is lost).  At the exit the borrowed
-    leaves are handed back to the caller (a final `use`); nothing else may be owned there.  A leaf
-    that is owned at a point from which no continuation ever reads it is leaked; a borrowed leaf
-    may stay untouched on a path that never returns. -/
+    Under every leaf id a linear value is *held* or not.  A statement acts on a leaf through a
+    sequence of events, each with the kind (`lin`) of the binding it refers to or creates:
+    `use` (the leaf is required and taken: moved, consumed, returned, or lent to a callee),
+    `give` (the callee hands a lent leaf back), `asg` (the leaf is (re)defined by an assignment,
+    possibly at a type of the other kind).  A path is bad as soon as a linear leaf is used while
+    no value is held (use after consume, second borrow while lent) or a leaf is assigned — at
+    whatever type — while a linear value is held under it (the old value is lost).  Events on
+    copyable bindings change nothing.  At the exit the borrowed leaves are handed back to the
+    caller (a final `use`); nothing else may be held there.  A value that is held at a point
+    from which no continuation ever reads it is leaked; a borrowed leaf may stay untouched on a
+    path that never returns. -/
 namespace GuppyVerif.Linearity
 
-inductive Ev where
+inductive Op where
   | use | give | asg
   deriving DecidableEq, Repr
 
+structure Ev where
+  op : Op
+  lin : Bool
+  deriving DecidableEq, Repr
+
 /-- ownership semantics of one leaf under one event; `none` = the path is bad here -/
-def Ev.step : Bool → Ev → Option Bool
-  | true, .use => some false
-  | false, .use => none
-  | _, .give => some true
-  | false, .asg => some true
-  | true, .asg => none
+def Ev.step (held : Bool) (e : Ev) : Option Bool :=
+  match e.op, e.lin with
+  | .use, true => if held then some false else none
+  | .use, false => some held
+  | .give, true => some true
+  | .give, false => some held
+  | .asg, k => if held then none else some k
 
 def runEvs (o : Bool) : List Ev → Option Bool
   | [] => some o
@@ -30,24 +39,23 @@ def runEvs (o : Bool) : List Ev → Option Bool
     | none => none
     | some o' => runEvs o' es
 
-/-- the events a list of leaves contributes for leaf `l` -/
-def leafEvs (e : Ev) (l : Leaf) (ls : List Leaf) : List Ev := ls.flatMap fun x => if x = l then [e] else []
+/-- the events a list of leaf occurrences contributes for leaf `l` -/
+def leafEvs (op : Op) (l : Leaf) (ls : List (Leaf × Bool)) : List Ev :=
+  ls.flatMap fun xk => if xk.1 = l then [⟨op, xk.2⟩] else []
 
-def placesEvs (e : Ev) (l : Leaf) (ps : List Place) : List Ev := ps.flatMap fun p => leafEvs e l p.leaves
+def Act.evs (l : Leaf) : Act → List Ev
+  | .use p _ => leafEvs .use l p.leaves
+  | .give p => leafEvs .give l p.leaves
+  | .dropAfter => []
 
-/-- what a statement requires / takes / produces, per leaf, in evaluation order:
-    the sources (arguments) are taken left to right, then lent arguments are handed back,
-    then the targets are defined -/
-def Stmt.evs (l : Leaf) : Stmt → List Ev
-  | .move tgts srcs => placesEvs .use l srcs ++ placesEvs .asg l tgts
-  | .call tgts args _ =>
-    placesEvs .use l (args.map Arg.place) ++ placesEvs .give l ((args.filter Arg.isInout).map Arg.place) ++
-      placesEvs .asg l tgts
-  | .ret srcs => placesEvs .use l srcs
+/-- what a statement requires / takes / produces, per leaf, in evaluation order -/
+def Stmt.evs (l : Leaf) (st : Stmt) : List Ev :=
+  st.acts.flatMap (Act.evs l) ++ st.tgts.flatMap fun t => leafEvs .asg l t.leaves
 
 /-- events of a whole block; reaching the exit hands the borrowed leaves back to the caller -/
 def Prog.blockEvs (P : Prog) (l : Leaf) (b : Blk) : List Ev :=
-  (P.stmts b).flatMap (Stmt.evs l) ++ (if b = P.exit ∧ l ∈ P.borrowedLeaves then [Ev.use] else [])
+  (P.stmts b).flatMap (Stmt.evs l) ++
+    (if b = P.exit ∧ l ∈ P.borrowedLeaves then [⟨Op.use, (P.rowLin P.exit).contains l⟩] else [])
 
 /-- `Walk P bs b`: `bs ++ [b]` is a path of the CFG starting at the entry block -/
 inductive Walk (P : Prog) : List Blk → Blk → Prop
@@ -56,51 +64,94 @@ inductive Walk (P : Prog) : List Blk → Blk → Prop
 
 def Prog.trace (P : Prog) (l : Leaf) (bs : List Blk) : List Ev := bs.flatMap (P.blockEvs l)
 
-/-- the leaves owned when the function is entered: those of its parameters -/
-def Prog.initOwned (P : Prog) (l : Leaf) : Bool := (P.row P.entry).contains l
+/-- the leaves under which a linear value is held when the function is entered: the linear
+    leaves of its parameters -/
+def Prog.initOwned (P : Prog) (l : Leaf) : Bool := (P.rowLin P.entry).contains l
+
+def Ev.isUse (e : Ev) : Bool := e.op == Op.use
 
 /-- some continuation from the start of block `b` reads `l` before redefining it -/
 inductive WillUse (P : Prog) (l : Leaf) : Blk → Prop
-  | here {b : Blk} : (P.blockEvs l b).head? = some Ev.use → WillUse P l b
+  | here {b : Blk} : ((P.blockEvs l b).head?.map Ev.isUse) = some true → WillUse P l b
   | later {b c : Blk} : P.blockEvs l b = [] → c ∈ P.succ b → WillUse P l c → WillUse P l b
 
 /-- some continuation from `b` never terminates and never touches `l` -/
 def MayIdle (P : Prog) (l : Leaf) (b : Blk) : Prop :=
   ∃ f : Nat → Blk, f 0 = b ∧ ∀ i, P.blockEvs l (f i) = [] ∧ f (i + 1) ∈ P.succ (f i)
 
-/-- every path from the entry treats the linear leaf `l` correctly -/
+/-- every path from the entry treats the leaf `l` correctly -/
 structure LeafGood (P : Prog) (l : Leaf) : Prop where
-  /-- never used while absent, never overwritten while owned; a borrowed leaf is there to be
-      handed back whenever the exit is reached -/
+  /-- never used (at a linear type) while nothing is held, never assigned while a linear value
+      is held; a borrowed leaf is there to be handed back whenever the exit is reached -/
   noBadUse : ∀ bs b, Walk P bs b → runEvs (P.initOwned l) (P.trace l (bs ++ [b])) ≠ none
   /-- nothing is left behind at the exit -/
   exitClean : ∀ bs, Walk P bs P.exit → runEvs (P.initOwned l) (P.trace l (bs ++ [P.exit])) = some false
-  /-- no leak, also on paths that never reach the exit: whenever the leaf is owned on entering a
-      block, some continuation reads it — or it is a borrowed leaf on a path that never returns -/
+  /-- no leak, also on paths that never reach the exit: whenever a linear value is held on
+      entering a block, some continuation reads it — or it is a borrowed leaf on a path that
+      never returns -/
   noLeak : ∀ bs b, Walk P bs b → runEvs (P.initOwned l) (P.trace l bs) = some true →
     WillUse P l b ∨ (l ∈ P.borrowedLeaves ∧ MayIdle P l b)
 
 /-- ownership rules that do not depend on the path: a whole borrowed variable is never moved,
-    consumed, returned or reassigned, and no linear result is discarded -/
-def Stmt.StaticOK (P : Prog) : Stmt → Prop
-  | .move tgts srcs => (∀ p ∈ srcs, isInoutVar P p = false) ∧ (∀ t ∈ tgts, isInoutVar P t = false)
-  | .call tgts args d =>
-    (∀ a ∈ args, a.isInout = false → isInoutVar P a.place = false) ∧ (∀ t ∈ tgts, isInoutVar P t = false) ∧
-      d = false
-  | .ret srcs => ∀ p ∈ srcs, isInoutVar P p = false
+    consumed, returned or reassigned, no linear result is discarded, no linear unnamed value is
+    lent to a callee (it could not be handed back) -/
+def Act.StaticOK (P : Prog) : Act → Prop
+  | .use p borrow => borrow = false → isInoutVar P p = false
+  | .give _ => True
+  | .dropAfter => False
+
+def Stmt.StaticOK (P : Prog) (st : Stmt) : Prop :=
+  (∀ a ∈ st.acts, a.StaticOK P) ∧ (∀ t ∈ st.tgts, isInoutVar P t = false) ∧ st.dropsLin = false
 
 def Reachable (P : Prog) (b : Blk) : Prop := ∃ bs, Walk P bs b
 
-/-- **the property**: every path from the entry is good for every linear leaf, and the
+/-- **the property**: every path from the entry is good for every leaf, and the
     path-independent ownership rules hold in all reachable code -/
 structure Good (P : Prog) : Prop where
-  leaves : ∀ l, P.lin l = true → LeafGood P l
+  leaves : ∀ l, LeafGood P l
   rules : ∀ b, Reachable P b → ∀ s ∈ P.stmts b, s.StaticOK P
+
+/-- the kind of leaf `l` in the input row of block `b` -/
+def Prog.rowKind (P : Prog) (b : Blk) (l : Leaf) : Option Bool :=
+  if (P.row b).contains l then some ((P.rowLin b).contains l) else none
+
+/-- kind of the current binding of a leaf under one event; `none` = the occurrence is typed at
+    another kind than the binding it refers to -/
+def Ev.kstep (k : Option Bool) (e : Ev) : Option (Option Bool) :=
+  match e.op with
+  | .use => if k = some e.lin then some k else none
+  | .give => if k = some e.lin then some k else none
+  | .asg => some (some e.lin)
+
+def krun (k : Option Bool) : List Ev → Option (Option Bool)
+  | [] => some k
+  | e :: es => match Ev.kstep k e with
+    | none => none
+    | some k' => krun k' es
+
+/-- **well-kinded CFG** (what the type checker establishes; evaluated on every extracted CFG by
+    the driver): in every block each occurrence of a leaf is typed at the kind of the binding it
+    refers to — the one of the input row, or the latest assignment in the block — and the binding
+    that leaves the block has the kind the successors' rows announce -/
+structure Prog.KindsOK (P : Prog) : Prop where
+  rows : ∀ b ∈ P.blocks, ∀ l, l ∈ P.rowLin b → l ∈ P.row b
+  blocks : ∀ l, ∀ b ∈ P.blocks, ∃ k, krun (P.rowKind b l) (P.blockEvs l b) = some k ∧
+    ∀ c ∈ P.succ b, l ∈ P.row c → P.rowKind c l = k
+
+/-- executable form of `Prog.KindsOK` over the leaves that occur in the program -/
+def Prog.kindsOKb (P : Prog) : Bool :=
+  P.blocks.all (fun b => (P.rowLin b).all fun l => (P.row b).contains l) &&
+  P.leafIds.all fun l => P.blocks.all fun b =>
+    match krun (P.rowKind b l) (P.blockEvs l b) with
+    | none => false
+    | some k => (P.succ b).all fun c => !(P.row c).contains l || P.rowKind c l == k
 
 /-- shape of the CFGs `check_cfg_linearity` receives (checked on every extracted CFG by the
     driver): successors stay inside the block list, the entry has no predecessor and is not the
-    exit, the exit is empty and final, every other block continues somewhere -/
+    exit, the exit is empty and final, every other block continues somewhere; within a statement
+    a lent place is handed back only after it was lent -/
 structure Prog.WF (P : Prog) : Prop where
+  acts : ∀ b ∈ P.blocks, ∀ st ∈ P.stmts b, actsWf [] st.acts = true
   entryIn : P.entry ∈ P.blocks
   closed : ∀ b ∈ P.blocks, ∀ c ∈ P.succ b, c ∈ P.blocks
   entryNoPred : ∀ b ∈ P.blocks, P.entry ∉ P.succ b
